@@ -208,8 +208,9 @@ fn gen_c17(r: &mut Rng, thorough: bool) -> Sc {
             1 => 0x1000 + r.below(32) * 0x100,
             _ => 0x1000 + r.below(8) * 0x1000,
         };
-        let len = *r.pick(&[1u64, 0x10, 0x100, 0x1000, 0x3000]);
-        if !blockers.iter().any(|b| intersects(start, len, b.0, b.1)) {
+        // (an empty area occupies nothing: whatever lands on its address is still placed there)
+        let len = *r.pick(&[0u64, 1, 0x10, 0x100, 0x1000, 0x3000]);
+        if !blockers.iter().any(|b| intersects(start, len, b.0, b.1) || b.0 == start) {
             blockers.push((start, len));
         }
     }
@@ -680,7 +681,9 @@ fn run_c17(sc: &Sc, ctx: &mut Ctx) {
         ctx.probe("string_area_retry");
     }
     // the stack space left below RSP is the requested size up to alignment padding (read as 64 bytes)
-    match areas.iter().find(|a| a.start == stack_start) {
+    // (the stack is the area at the returned start that did not exist before; an empty pre-existing
+    // area may share that address)
+    match areas.iter().find(|a| a.start == stack_start && !pre.iter().any(|p| p.0 == a.start && p.1 == a.length)).or_else(|| areas.iter().find(|a| a.start == stack_start)) {
         Some(st) => {
             if rsp < st.start || rsp >= st.start + st.length.max(1) {
                 ctx.dev("C17", format!("C17|rsp_outside_stack|{shape}"), format!("RSP {rsp:#x} is outside the stack area {:#x}+{:#x}", st.start, st.length));
@@ -773,8 +776,112 @@ fn run_c17(sc: &Sc, ctx: &mut Ctx) {
     ctx.log_u64(observe(&ax).digest());
 }
 
+/// (vaddr, memsz, flags) of the loadable segments: from the spec, or read from a bundled file by the
+/// harness's own reader
+fn load_segments(bytes: &[u8], gen: &Option<(ImgSpec, Built)>) -> Vec<(u64, u64, u32)> {
+    match gen {
+        Some((spec, _)) => spec.segs.iter().map(|s| (s.vaddr, s.memsz, s.flags)).collect(),
+        None => {
+            let h = locate(bytes);
+            let mut v = Vec::new();
+            for i in 0..h.phnum {
+                let o = (h.phoff + 56 * i) as usize;
+                let rd = |off: usize, n: usize| -> u64 {
+                    let mut x = 0u64;
+                    for k in 0..n {
+                        x |= (bytes[o + off + k] as u64) << (8 * k);
+                    }
+                    x
+                };
+                if rd(0, 4) == 1 && rd(16, 8) != 0 {
+                    v.push((rd(16, 8), rd(40, 8), rd(4, 4) as u32));
+                }
+            }
+            v
+        }
+    }
+}
+
+/// C09, the clause about loaded images: what a segment's flags deny stays denied on every access
+/// path - API read/write, guest load/store/read-modify-write (from a helper code area the host adds)
+/// and instruction fetch - and a denied access changes nothing. Only the *denial* direction is
+/// judged here; that permitted accesses succeed is the business of the E1/E5 parts.
+fn run_c09_elf(sc: &Sc, ctx: &mut Ctx) {
+    let (bytes, gen) = image_bytes(sc);
+    install_ax_rng(7);
+    ctx.nontrivial = true;
+    let mut ax = match catch(|| Axecutor::from_binary(&bytes)) {
+        Ok(Ok(a)) => a,
+        _ => {
+            // whether a well-formed image loads is C15's claim
+            ctx.probe("c09_elf_image_not_loaded");
+            return;
+        }
+    };
+    let segs = load_segments(&bytes, &gen);
+    // helper code: mov [rbx],al ; mov al,[rbx] ; add byte [rbx],1 - each followed by NOPs
+    const HELPER: u64 = 0x5a5a_0000_0000;
+    let mut code = vec![0x90u8; 32];
+    code[0..2].copy_from_slice(&[0x88, 0x03]);
+    code[8..10].copy_from_slice(&[0x8a, 0x03]);
+    code[16..19].copy_from_slice(&[0x80, 0x03, 0x01]);
+    let ok = matches!(catch(|| ax.mem_init_area(HELPER, code.clone())), Ok(Ok(()))) && matches!(catch(|| ax.mem_prot(HELPER, 5)), Ok(Ok(())));
+    if !ok {
+        ctx.probe("c09_elf_no_room_for_helper");
+        return;
+    }
+    let mut r = Rng::new(bytes.len() as u64 ^ 0x9e37);
+    for (vaddr, memsz, flags) in segs.iter() {
+        let p = prot_of(*flags);
+        ctx.event(&format!("segment:prot={p}:{}", if memsz & 0xfff == 0 && vaddr & 0xfff == 0 { "whole_pages" } else { "partial_page" }), "");
+        let mut offs = vec![0u64, memsz - 1, memsz / 2];
+        offs.push(r.below(*memsz));
+        offs.dedup();
+        for off in offs {
+            let addr = vaddr + off;
+            let snapshot = |ax: &Axecutor| -> u64 { observe(ax).digest() };
+            let mem_of = |ax: &Axecutor| -> Vec<(u64, Vec<u8>)> { ax.verif_areas().into_iter().map(|a| (a.start, a.data)).collect() };
+            let _ = snapshot;
+            let mut deny = |ctx: &mut Ctx, ax: &mut Axecutor, what: &str, need: u32, f: &mut dyn FnMut(&mut Axecutor) -> bool| {
+                if p & need == need {
+                    return;
+                }
+                ctx.fault(&format!("denied_{what}"));
+                let before = mem_of(ax);
+                let res = catch(|| f(ax));
+                match res {
+                    Ok(false) => {}
+                    Ok(true) => ctx.dev("C09", format!("C09|elf|{what}|prot={p}|want=err|got=ok"), format!("{what} at {addr:#x} succeeded in a segment loaded with flags {flags} (permissions {p})")),
+                    Err(pn) => ctx.dev("C09", format!("C09|elf|{what}|prot={p}|{}", pn.class()), format!("{what} at {addr:#x} panicked: {} at {}", pn.msg, pn.loc)),
+                }
+                if mem_of(ax) != before {
+                    ctx.dev("C09", format!("C09|elf|{what}|prot={p}|denied_access_changed_memory"), format!("{what} at {addr:#x} was denied (or should have been) and memory changed"));
+                }
+            };
+            deny(ctx, &mut ax, "api_read", 1, &mut |ax| ax.mem_read_8(addr).is_ok());
+            deny(ctx, &mut ax, "api_write", 2, &mut |ax| ax.mem_write_8(addr, 0xc3).is_ok());
+            let mut guest = |ax: &mut Axecutor, at: u64| -> bool {
+                let _ = ax.reg_write_64(SR::RIP, at);
+                let _ = ax.reg_write_64(SR::RBX, addr);
+                let _ = ax.reg_write_64(SR::RAX, 0x5a);
+                matches!(do_step(ax), StepOut::Ok(_))
+            };
+            deny(ctx, &mut ax, "guest_store", 2, &mut |ax| guest(ax, HELPER));
+            deny(ctx, &mut ax, "guest_load", 1, &mut |ax| guest(ax, HELPER + 8));
+            deny(ctx, &mut ax, "guest_rmw", 3, &mut |ax| guest(ax, HELPER + 16));
+            deny(ctx, &mut ax, "fetch", 4, &mut |ax| {
+                let _ = ax.reg_write_64(SR::RIP, addr);
+                matches!(do_step(ax), StepOut::Ok(_))
+            });
+            ctx.guest_steps += 4;
+        }
+    }
+    ctx.log_u64(observe(&ax).digest());
+}
+
 pub fn run(_prop: &str, sc: &Sc, ctx: &mut Ctx) {
     match sc.kind.as_str() {
+        "c09elf" => run_c09_elf(sc, ctx),
         "c15" => run_c15(sc, ctx),
         "c16" => run_c16(sc, ctx),
         _ => run_c17(sc, ctx),
@@ -794,6 +901,13 @@ impl Engine for E4Engine {
                     100_000
                 }
             }
+            "C09" => {
+                if thorough {
+                    300_000
+                } else {
+                    15_000
+                }
+            }
             "C16" => enumerated().len() as u64 + if thorough { 6_000_000 } else { 400_000 },
             _ => {
                 if thorough {
@@ -808,6 +922,11 @@ impl Engine for E4Engine {
         let mut r = Rng::new(mix(seed, prop, idx));
         let sc = match prop {
             "C15" => gen_c15(&mut r, idx),
+            "C09" => {
+                let mut sc = gen_c15(&mut r, idx);
+                sc.kind = "c09elf".into();
+                sc
+            }
             "C16" => gen_c16(&mut r, idx),
             _ => gen_c17(&mut r, thorough),
         };
@@ -944,6 +1063,7 @@ impl Engine for E4Engine {
     fn rule(&self, prop: &str) -> String {
         match prop {
             "C15" => "fault-free configuration of the storage-fault simulation: generated ELF64 ET_EXEC images (1-8 PT_LOAD segments on distinct pages, aligned and unaligned vaddr, bss tails, exact page multiples, every flag combination, benign non-load headers, optional symbol table with named/unnamed/duplicate/undefined symbols, shuffled header and file order) plus the 8 bundled binaries; image model checked through the area view; distinct = distinct hash of (outcome, segment shape sequence)".into(),
+            "C09" => "loaded images: for every PT_LOAD segment of generated and bundled well-formed images (every flag combination, exact page multiples, bss tails) each access path the flags deny - API read/write, guest load/store/read-modify-write from a host-added helper area, instruction fetch - at the first, last, middle and a sampled byte must fail and leave all memory unchanged".into(),
             "C16" => format!("{} enumerated storage faults on the 8 bundled images (every truncation offset of the headers plus a stride through the rest; every ELF-header, program-header, section-header and symbol field set to each of ~17 boundary values and every defined p_type) in every run independent of the seed, then sampled single/double/triple mutations (fields, bit flips, bursts, splices, truncations) of bundled and generated images and random byte strings; oracle: from_binary returns Ok or Err - no panic, abort, signal, hang, or allocation request above 256 MiB; distinct = distinct hash of (fault kind, field, value class, outcome)", enumerated().len()),
             _ => "argv/envp lists (empty to 64 entries quick / 4096 thorough, empty/1-byte/64 KiB/non-ASCII strings), stack sizes 0 to 1 MiB including sizes smaller than the frame, machines from new() and from generated images, adversarial pre-existing areas at the placement loops' first probes; the frame is observed by a guest program of POP+SYSCALL pairs through a hook; distinct = distinct hash of (outcome, frame shape)".into(),
         }
@@ -951,6 +1071,7 @@ impl Engine for E4Engine {
     fn assumptions(&self, prop: &str) -> Vec<String> {
         match prop {
             "C16" => vec!["'allocation unrelated to the size of the input' is read as a single request above 256 MiB for inputs <= 1 MiB".into(), "nothing is demanded of a machine that loads successfully from a malformed image".into()],
+            "C09" => vec!["images the loader rejects are C15's business and are skipped in the C09 part".into()],
             "C17" => vec!["'up to alignment padding' is read as within 64 bytes of the requested size".into(), "images rejected by the loader are C15's business and are skipped here".into()],
             _ => vec!["nothing is demanded about bytes beyond p_memsz or about addresses without symbols".into()],
         }
